@@ -454,6 +454,7 @@ def listener_table(ctx, program, rid):
             heap = {f"{cls}.notify": DictV([(Const(t), _set(*qs)) for t, qs in before.items()]),
                     f"{cls}.notify_remove": DictV([(Const(t), H(t)) for t in before]), f"{cls}.hass": Sym(("hass",))}
             args = {"cls": ClassV(cls), params[1]: Const(typ), "queue": Const(q)}
+            pol.track_aliases = True  # the subscriber set of a type read into a local is still the element of the table
             out = run_flow(program, uid, pol, args=args, heap=heap)
             bad = None
             n = 0
